@@ -1,6 +1,8 @@
 package main
 
 import (
+	"os"
+	"path/filepath"
 	"IG-Parser/core/endpoints"
 	"IG-Parser/core/exporter/tabular"
 	"IG-Parser/core/parser"
@@ -338,11 +340,27 @@ func runTab(a map[string]interface{}) ([]tabular.TabularOutputResult, tree.Parsi
 	}
 	po := inclOpt(a, "po", tabular.ORIGINAL_STATEMENT_OUTPUT_NONE, tabular.ORIGINAL_STATEMENT_OUTPUT_FIRST_ENTRY, tabular.ORIGINAL_STATEMENT_OUTPUT_ALL_ENTRIES)
 	ps := inclOpt(a, "ps", tabular.IG_SCRIPT_OUTPUT_NONE, tabular.IG_SCRIPT_OUTPUT_FIRST_ENTRY, tabular.IG_SCRIPT_OUTPUT_ALL_ENTRIES)
-	return endpoints.ConvertIGScriptToTabularOutput(aStr(a, "orig"), aStr(a, "text"), aStr(a, "id"), format, "", true, aBool(a, "hdr"), po, ps)
+	return endpoints.ConvertIGScriptToTabularOutput(aStr(a, "orig"), aStr(a, "text"), aStr(a, "id"), format, aStr(a, "filename"), true, aBool(a, "hdr"), po, ps)
 }
 
 func opTab(a map[string]interface{}) (string, string, interface{}) {
+	// "file": true — also export to a file (as the command-line workbench does) and read it back
+	fileContent, wroteFile := "", false
+	if aBool(a, "file") {
+		dir, derr := os.MkdirTemp("", "igh-export-")
+		if derr == nil {
+			defer os.RemoveAll(dir)
+			a = copyArgs(a)
+			a["filename"] = filepath.Join(dir, "export.csv")
+			wroteFile = true
+		}
+	}
 	res, err := runTab(a)
+	if wroteFile {
+		if b, rerr := os.ReadFile(aStr(a, "filename")); rerr == nil {
+			fileContent = string(b)
+		}
+	}
 	if err.ErrorCode != tree.PARSING_NO_ERROR {
 		n := 0
 		for _, r := range res {
@@ -359,6 +377,14 @@ func opTab(a map[string]interface{}) (string, string, interface{}) {
 		out = append(out, J{"hdr": r.HeaderSymbols, "names": r.HeaderNames, "rows": rows, "out": r.Output, "e": r.Error.ErrorCode})
 	}
 	obs := J{"res": out, "sep": tabular.CellSeparator}
+	if wroteFile {
+		all := ""
+		for _, r := range res {
+			all += r.Output
+		}
+		obs["file"] = fileContent
+		obs["outs"] = all
+	}
 	if aBool(a, "withparse") {
 		// the implementation's own parse of the cleaned text, for oracles that must not blame
 		// the exporter for a parser defect
